@@ -1,5 +1,6 @@
 import MjProof.Model.UserPool
 import MjProof.Model.SpecCopy
+import MjProof.Model.LRSlices
 import Drivers.Common
 /-
 Line protocol of the C33 thread-pool model:
@@ -20,6 +21,8 @@ Line protocol of the C33 thread-pool model:
   copy <order> | <tree> | <kind>:<name>:<rk>.<rn>+<rk>.<rn> ...   the deep copy of a spec (`SpecCopy.copySpec`); one word
       per element in list order, names are numbers, the reference list may be empty
       output: `kept <k>:<count>,... dropped <kind>.<name>,...` (kinds = tree then order; `-` for an empty list)
+  lrslices <n> <t>                 the work partition of the threaded LengthRange (`LRSlices.slices`), n <= 4096, 1 <= t <= 64
+      output: `num=<per-thread count> | <indices of worker 0> ; <indices of worker 1> ; ...` (comma-separated, `-` = none)
 Malformed lines are answered with `bad-op`.
 -/
 open MjProof MjProof.Driver MjProof.UserPool
@@ -141,6 +144,13 @@ def stepLine (line : String) : String :=
       if SpecCopy.kindOK o t e then "ok" else
         "bad " ++ showList ((SpecCopy.badEdges o t e).map (fun ab => s!"{ab.1}>{ab.2}"))
     | _, _, _ => "bad-op"
+  | ["lrslices", n, t] =>
+    match n.toNat?, t.toNat? with
+    | some n, some t =>
+      if n ≤ 4096 ∧ 1 ≤ t ∧ t ≤ 64 then
+        s!"num={LRSlices.perThread n t} | " ++ " ; ".intercalate ((LRSlices.slices n t).map (fun l => showList (l.map toString)))
+      else "bad-op"
+    | _, _ => "bad-op"
   | "copy" :: o :: "|" :: t :: "|" :: es =>
     match parseCsvNat o, parseCsvNat t, es.mapM parseElem with
     | some o, some t, some es => if es.length ≤ 2000 then copyOp o t es else "bad-op"
